@@ -56,6 +56,21 @@ theorem C13_trace_keepalive (c : Cfg) (hq : Quiet c) (hto : c.to = none) (hiv : 
   rw [this]
   rfl
 
+/-- **C13_open_first_keepalive** — on_open (when set) is the first callback of the connection and fires at the tick the
+    connection is established, with the ping thread running. -/
+theorem C13_open_first_keepalive (c : Cfg) (hq : Quiet c) (hto : c.to = none) (hiv : 0 ≤ c.iv)
+    (hrc : c.reconnect = 0) (s0 : St) (legal : List TEv) (te : TEv)
+    (hs : s0.sock = none)
+    (hd : s0.dials = [.established (legal ++ [te])])
+    (hleg : ∀ e ∈ legal, isLegal e.ev = true) (hterm : isTerm te.ev = true)
+    (hfuel : need0 (selectTimeout c) (legal ++ [te]) + 1 ≤ c.fuel)
+    (hz : endTime s0.now (legal ++ [te]) + secs Gen.closeTimeoutDefault ≤ c.horizon)
+    (hopen : c.has .onOpen = true) :
+    ∃ rest, cbOnly (runForever c s0).trace = cbOnly s0.trace ++ (s0.now, .cb .onOpen []) :: rest := by
+  obtain ⟨tail, h, _⟩ := C13_trace_keepalive c hq hto hiv hrc s0 legal te hs hd hleg hterm hfuel hz
+  obtain ⟨rest, hr⟩ := expectedConn_head c.has c.plan s0.calls s0.now .onOpen (legal ++ [te]) hopen
+  exact ⟨rest ++ tail, by rw [h, hr]; simp⟩
+
 /-- non-vacuity, executed: interval 1 s, no timeout, a text message at 2.5 s and end of stream at 4 s: the keepalive run has
     ping events; without them its trace is the trace of the run with keepalive off. -/
 example :
